@@ -11,6 +11,7 @@ pub mod egress;
 pub mod engine;
 pub mod ingress;
 pub mod ingress_driver;
+pub mod reqrep;
 pub mod router;
 pub mod rpq;
 pub mod sec;
